@@ -11,7 +11,7 @@ use crate::{
     DataType,
     schema::{
         Schema,
-        base::{Column, IndexHandle},
+        base::Column,
     },
     sql::{
         binder::bounds::{Binding, BoundExpression},
@@ -120,8 +120,11 @@ fn table_schema(t: usize, tb: &VTable) -> Schema {
     if s.table_indexes.is_none() {
         s.table_indexes = Some(HashMap::new());
     }
-    for (k, ix) in tb.indexes.iter().enumerate() {
-        let _ = s.add_index(IndexHandle::new(index_id(t, k), ix.clone()));
+    // (not through Schema::add_index, which refuses an index on the last column)
+    if let Some(map) = s.table_indexes.as_mut() {
+        for (k, ix) in tb.indexes.iter().enumerate() {
+            map.insert(index_id(t, k), ix.clone());
+        }
     }
     s
 }
@@ -137,7 +140,7 @@ fn lit(v: &VLit) -> DataType {
             }
         }
         VLit::Bool(b) => DataType::Bool(Bool(*b)),
-        VLit::Text(s) => DataType::Blob(Blob::from(s.as_slice())),
+        VLit::Text(s) => DataType::Blob(Blob::from_unencoded_slice(s.as_slice())),
     }
 }
 
